@@ -1,7 +1,7 @@
 #!/bin/bash
 # dbg.sh <unit> <fn> : first failing obligation only (fast feedback)
 D=/var/tmp/vx_dbg; rm -rf $D; mkdir -p $D
-cd /verif; VX_NOCOVER=1 VX_NO_CACHE=1 VERIF_SCRATCH=$D timeout ${3:-60} python3 -m vx.dev $1 $2 2>&1 | grep -E "goto-cc failed|EXTRACTION|goto-instrument failed" -A 6 | head -20
+ROOT=$(cd "$(dirname "$0")/.." && pwd); cd $ROOT; VX_NOCOVER=1 VX_NO_CACHE=1 VERIF_SCRATCH=$D timeout ${3:-60} python3 -m vx.dev $1 $2 2>&1 | grep -E "goto-cc failed|EXTRACTION|goto-instrument failed" -A 6 | head -20
 F=$(ls -d $D/vx.* | head -1); cd $F || exit
-OB=$(grep -o "objbits=[0-9]*" /verif/contracts/$1.spec | head -1 | cut -d= -f2)
+OB=$(grep -o "objbits=[0-9]*" $ROOT/contracts/$1.spec | head -1 | cut -d= -f2)
 timeout ${4:-600} cbmc --bounds-check --pointer-check --pointer-overflow-check --signed-overflow-check --unsigned-overflow-check --div-by-zero-check --pointer-primitive-check ${OB:+--object-bits $OB} $1.$2.b.gb --stop-on-fail 2>&1 | grep -E "^Violated property|VERIFICATION|error" -A 4 | cut -c1-500
